@@ -115,6 +115,32 @@ def as_form(A, form):
     return A.copy(), "float64"
 
 
+def points_form_relation(rec, shape, P, got, safe, dist, size, sig, k, planar=False):
+    """Metamorphic relation over the form of the query points: the same batch handed over as a nested list, a nested tuple
+    or a float32 array (rounded; only points farther than 1e-5 of the scale from the boundary are compared, rounding moves
+    a point by at most 1e-7 of it; for 2-D shapes only points whose z is exactly representable) must get the answers the
+    float64 ndarray got."""
+    P = np.asarray(P, dtype=float)
+    k = k % 4
+    if k == 0:
+        return
+    if k == 1:
+        alt, robust, name = [[float(x) for x in r] for r in P], safe, "list"
+    elif k == 2:
+        alt, robust, name = tuple(tuple(float(x) for x in r) for r in P), safe, "tuple"
+    else:
+        alt, name = P.astype(np.float32), "float32"
+        robust = safe & (dist > 1e-5 * max(float(size), float(np.max(np.abs(P), initial=0.0)))) & np.all(np.isfinite(alt), axis=1)
+        if planar and P.shape[1] == 3:
+            # 2-D shapes: `dist` is the in-plane distance and the shapes test the third coordinate against their plane with a
+            # tight tolerance, so only points whose z survives the rounding exactly are compared
+            robust = robust & (alt[:, 2].astype(float) == P[:, 2])
+    ga = call(shape.is_inside, alt)
+    ok = not isinstance(ga, Raised) and np.asarray(ga).shape == (len(P),) and np.array_equal(np.asarray(ga)[robust], np.asarray(got)[robust])
+    rec.label("ptsform:" + name)
+    rec.check(ok, "points_form_equals_ndarray", dict(sig, form=name), got=repr(ga)[:100])
+
+
 def facet_flatness(V, facets, normals, offsets):
     """Largest distance of a facet's own vertices from the facet plane, in units of eps * (largest |coordinate|)."""
     V = np.asarray(V, dtype=float)
